@@ -33,11 +33,17 @@ ASSUMPTIONS = C08.ASSUMPTIONS + [
 ]
 U = ast.unparse
 
-# universe of point assignments: (p in subshape1, p in subshape2, p in other)
-ALL = frozenset(itertools.product((0, 1), repeat=3))
-S1 = frozenset(x for x in ALL if x[0])
-S2 = frozenset(x for x in ALL if x[1])
-B = frozenset(x for x in ALL if x[2])
+# universe of point assignments: (p inside curve c1, inside curve c1', inside curve c2, p in other).
+# A composite `self` has two subshapes: the first is a region bounded by the two curves c1, c1' (a ConnectedShape,
+# e.g. a ring) when self is a DisjointShape and by c1 alone otherwise; the second is bounded by c2.  Keeping the curves
+# apart from the subshapes lets the table tell `for s in self.subshapes` from `for j in self.jordans`.
+ALL = frozenset(itertools.product((0, 1), repeat=4))
+C1 = frozenset(x for x in ALL if x[0])
+C1B = frozenset(x for x in ALL if x[1])
+C2 = frozenset(x for x in ALL if x[2])
+S1 = C1                                  # first subshape when it is simple
+S2 = C2
+B = frozenset(x for x in ALL if x[3])
 SPEC = {"__or__": lambda a, b: a | b, "__and__": lambda a, b: a & b, "__sub__": lambda a, b: a - b,
         "__xor__": lambda a, b: a ^ b, "__add__": lambda a, b: a | b, "__mul__": lambda a, b: a & b,
         "__neg__": lambda a, b: ALL - a, "__invert__": lambda a, b: ALL - a}
@@ -77,11 +83,14 @@ class TT:
         self.selfn = ps[0]
         self.othn = ps[1] if len(ps) > 1 else None
         if self.cls == "ConnectedShape":
-            self.A = S1 & S2
+            self.subs, self.curvs = [C1, C2], [C1, C2]
+            self.A = C1 & C2
         elif self.cls == "DisjointShape":
-            self.A = S1 | S2
+            self.subs, self.curvs = [C1 & C1B, C2], [C1, C1B, C2]      # a hollow component and a simple one
+            self.A = (C1 & C1B) | C2
         else:
-            self.A = S1
+            self.subs, self.curvs = [C1], [C1]
+            self.A = C1
         self.G0 = ALL
         if self.cls == "EmptyShape":
             self.G0 = ALL - self.A
@@ -382,6 +391,10 @@ class TT:
                 return ALL if env[f.id][1] == "WholeShape" else frozenset()       # singleton class passed as a value
             if isinstance(f, ast.Name) and f.id in ("copy", "deepcopy") and len(e.args) >= 1:
                 return self.expr(fn, e.args[0], w)
+            if isinstance(f, ast.Name) and f.id == "SimpleShape" and len(e.args) == 1:
+                av = self.try_expr(fn, e.args[0], w)
+                if isinstance(av, tuple) and av and av[0] == "curve":
+                    return av[1]
             if isinstance(f, ast.Attribute) and f.attr in ("__copy__", "__deepcopy__"):
                 return self.expr(fn, f.value, w)
             if any(q.split(".")[-1] in CORE for q in tg):
@@ -406,7 +419,7 @@ class TT:
             if isinstance(t, str) and t in ("SimpleShape", "ConnectedShape", "DisjointShape") and len(e.args) == 1:
                 c = self.curves(fn, e.args[0], w)
                 a = c if c is not None else self.expr(fn, e.args[0], w)
-                if isinstance(a, tuple) and a and a[0] == "curves":
+                if isinstance(a, tuple) and a and a[0] in ("curves", "curve"):
                     a = a[1]
                 if t == "SimpleShape" and isinstance(a, frozenset):
                     return a
@@ -445,6 +458,8 @@ class TT:
             v = self.expr(fn, e.operand, w)
             if isinstance(v, frozenset):
                 return ALL - v
+            if isinstance(v, tuple) and v and v[0] == "curve":
+                return ("curve", ALL - v[1])        # the reversed curve bounds the complement
             if isinstance(v, tuple) and v and v[0] == "curves":
                 return ("curves", ALL - v[1])       # reversing the curve(s) denotes the complement
             raise Undecided(U(e)[:40])
@@ -527,11 +542,24 @@ class TT:
                     and w.env.get(g.iter.value.id) == self.A and self.cls in ("ConnectedShape", "DisjointShape") \
                     and isinstance(g.target, ast.Name) and fn is self.fn:
                 vals = []
-                for sv in (S1, S2):
+                for sv in self.subs:
                     w2 = w.fork()
                     w2.env[g.target.id] = sv
                     vals.append(self.expr(fn, e.elt, w2))
                 return ("list", vals)
+            # [f(j) for j in self.jordans] in a composite class: one value per boundary curve (a curve is the region
+            # it bounds, tagged so that ~curve / SimpleShape(curve) / copy(curve) are understood)
+            if isinstance(g.iter, ast.Attribute) and g.iter.attr == "jordans" and isinstance(g.iter.value, ast.Name) \
+                    and w.env.get(g.iter.value.id) == self.A and self.cls in ("ConnectedShape", "DisjointShape") \
+                    and isinstance(g.target, ast.Name) and fn is self.fn:
+                vals = []
+                for cv in self.curvs:
+                    w2 = w.fork()
+                    w2.env[g.target.id] = ("curve", cv)
+                    vals.append(self.expr(fn, e.elt, w2))
+                if all(isinstance(v, frozenset) for v in vals):
+                    return ("list", vals)                       # shapes built curve by curve
+                return None
         return None
 
 
